@@ -593,8 +593,11 @@ func assocC03(c *Ctx) {
 	want := map[string]string{"LHS": "old right child", "RHS": "new operand", "Op": "new op"}
 	for f, w := range want {
 		k := "(*Parser).ParseExpr: inserted BinaryExpr." + f
+		known := fields[f] == "old right child" || fields[f] == "new operand" || fields[f] == "new op" || strings.HasPrefix(fields[f], "field ")
 		if fields[f] == w {
 			c.OK("C03.assoc", k, alloc.Pos(), w)
+		} else if !known {
+			c.Unk("C03.assoc", k, alloc.Pos(), fmt.Sprintf("field %s is set from %q, a value this rule does not classify (the tree may be built through a pointer to the slot being replaced)", f, fields[f]))
 		} else {
 			c.Bad("C03.assoc", k, alloc.Pos(), fmt.Sprintf("field %s is set from %q, expected the %s: the tree is mirrored or loses an operand", f, fields[f], w))
 		}
